@@ -16,6 +16,7 @@ type Cfg struct {
 	MaxOpts  int  // default 5 (0..MaxOpts-1 options are drawn)
 	Depth    int  // nesting depth of the spec, default 2
 	MaxRep   int  // repetitions when deriving a sentence, default 3
+	RepOneIn int  // one atom in RepOneIn gets a '...' (default 4; 2 = biased to ambiguous specs)
 }
 
 func (c Cfg) norm() Cfg {
@@ -28,6 +29,9 @@ func (c Cfg) norm() Cfg {
 	if c.MaxRep == 0 {
 		c.MaxRep = 3
 	}
+	if c.RepOneIn == 0 {
+		c.RepOneIn = 4
+	}
 	return c
 }
 
@@ -36,6 +40,7 @@ type specGen struct {
 	p       *Prog
 	allowDD bool
 	ddUsed  bool
+	repIn   int
 }
 
 // atom per the grammar: (opt | folded | OPTIONS | arg | group | optional | --) rep?
@@ -84,7 +89,7 @@ func (g *specGen) atom(depth int) *Node {
 	if n == nil {
 		n = &Node{K: KArg, Arg: g.p.Args[0]}
 	}
-	if r.Intn(4) == 0 {
+	if r.Intn(g.repIn) == 0 {
 		n = &Node{K: KRep, Kids: []*Node{n}}
 	}
 	return n
@@ -145,7 +150,7 @@ func GenProg(r *rand.Rand, cfg Cfg) *Prog {
 	apool := []*ArgDecl{{Name: "X", Multi: true}, {Name: "Y", Multi: true}, {Name: "Z_2", Multi: true}}
 	na := 1 + r.Intn(3)
 	p.Args = apool[:na]
-	g := &specGen{r: r, p: p, allowDD: cfg.AllowDD}
+	g := &specGen{r: r, p: p, allowDD: cfg.AllowDD, repIn: cfg.RepOneIn}
 	p.AST = g.seq(cfg.Depth, true)
 	p.Spec = p.AST.String()
 	return p
